@@ -108,6 +108,9 @@ def to_form(trajs, form, rng):
         return [list(t) for t in trajs]
     if form == 'mixed_arrays':
         return as_arrays(trajs, rng, mixed=True)
+    if form == 'narrow_arrays':
+        dt = min_dtype(trajs)
+        return [np.array(t, dtype=dt) for t in trajs]
     if form == 'statetraj':
         return mh.StateTraj(as_arrays(trajs, rng))
     return as_arrays(trajs, rng)
